@@ -56,9 +56,18 @@ def body(N, npart, nthread, coord, with_w, sort):
               and psort.shape == (N, 3) and (wsort is None) == (not with_w) and (wsort is None or wsort.shape == (N,)))
     ok = c.prove(z3.BoolVal(struct), 'starts run from 0 to N, non-decreasing, npartition+1 entries; output shapes', key='partition:starts') and ok
     # inputs untouched
-    untouched = int(common.wcounts(pos).sum()) == 0 and (not with_w or int(common.wcounts(w).sum()) == 0)
-    untouched = untouched and all(common.cell(pos, i, j) is pos_cells[i][j] for i in range(N) for j in range(3))
-    ok = c.prove(z3.BoolVal(untouched), 'input arrays are not modified', key='partition:input') and ok
+    # (by value: the solver has to exhibit inputs for which a cell of pos / weights holds a different number afterwards)
+    def same(a, b):
+        if a is arrays.UNINIT or b is arrays.UNINIT:
+            return z3.BoolVal(a is b)
+        a, b = core.lift(a), core.lift(b)
+        return z3.BoolVal(True) if a.e.eq(b.e) else core._b(a == b)
+    unt = [same(common.cell(pos, i, j), pos_cells[i][j]) for i in range(N) for j in range(3)]
+    if with_w:
+        unt += [same(common.cell(w, i), w_cells[i]) for i in range(N)]
+    xs0 = [core.lift(pos_cells[i][coord]).as_real() for i in range(N)]      # ties make argsort's order unobservable
+    ok = c.prove(z3.Implies(z3.Distinct(*xs0) if (sort and N > 1) else z3.BoolVal(True), z3.And(unt) if unt else z3.BoolVal(True)),
+                 'input arrays are not modified', key='partition:input') and ok
     if not struct:
         return
     # permutation with weights attached: rows are the very input terms
@@ -73,6 +82,11 @@ def body(N, npart, nthread, coord, with_w, sort):
     perm = all(s is not None for s in src) and sorted(src) == list(range(N))
     ok = c.prove(z3.BoolVal(perm), 'output rows are a permutation of the input rows', key='partition:perm') and ok
     if with_w and perm:
+        # by value, for inputs whose partition coordinates are pairwise different (so that the witness is observable
+        # as a different multiset of (position, weight) rows), then structurally for all inputs
+        xs = [core.lift(pos_cells[i][coord]).as_real() for i in range(N)]
+        trav = z3.And([same(common.cell(wsort, r), w_cells[src[r]]) for r in range(N)])
+        ok = c.prove(z3.Implies(z3.Distinct(*xs) if N > 1 else z3.BoolVal(True), trav), 'weight i travels with position i', key='partition:weights') and ok
         ok = c.prove(z3.BoolVal(all(common.cell(wsort, r) is w_cells[src[r]] for r in range(N))),
                      'weight i travels with position i', key='partition:weights') and ok
     if not sort:
@@ -178,13 +192,14 @@ p0 = pos.copy(); w0 = None if w is None else w.copy()
 bad = []
 for mode in ('py_func', 'compiled'):
     f = tsc.partition_parallel if mode == 'compiled' else tsc.partition_parallel.py_func
+    pos = p0.copy(); w = None if w0 is None else w0.copy()
     try:
         ps, st, ws = f(pos, npart, box, weights=w, coord=coord, nthread=nt, sort=sort)
     except Exception as ex:
         bad.append(f'{{mode}}: raised {{type(ex).__name__}}: {{ex}}'); continue
     if not (np.array_equal(pos, p0) and (w is None or np.array_equal(w, w0))): bad.append(f'{{mode}}: input modified')
     if not (len(st) == npart + 1 and st[0] == 0 and st[-1] == N and (np.diff(st) >= 0).all()): bad.append(f'{{mode}}: starts {{st.tolist()}}')
-    rows_in = sorted(map(tuple, np.column_stack([pos, w if w is not None else np.zeros(N)]).tolist()))
+    rows_in = sorted(map(tuple, np.column_stack([p0, w0 if w0 is not None else np.zeros(N)]).tolist()))
     rows_out = sorted(map(tuple, np.column_stack([ps, ws if ws is not None else np.zeros(N)]).tolist()))
     if rows_in != rows_out: bad.append(f'{{mode}}: output is not a permutation of (pos, weight) rows')
     key = np.minimum(np.floor(ps[:, coord] * npart / box).astype(int), npart - 1)
